@@ -79,6 +79,9 @@ Position(t, u) ==
       hits == SelectIdx(ps, LAMBDA p : DeepEq(p, u), 1)
   IN IF hits = <<>> THEN -1 ELSE hits[1] - 1
 
+\* all positions (0-based, ascending) of points deep-equal to u
+AllPositions(t, u) == LET hits == SelectIdx(Points(t), LAMBDA p : DeepEq(p, u), 1) IN [j \in 1..Len(hits) |-> hits[j] - 1]
+
 Occurs(t, u) == Position(t, u) >= 0
 
 \* the innermost list of t that directly holds an element deep-equal to u (first in depth-first
